@@ -192,6 +192,10 @@ type frameTrack struct {
 
 // implW: W <failAt> ops…
 func implW(f []string, o *oracleSink) string {
+	gBase := 0
+	if shadowDepth == 0 {
+		gBase = beginConc()
+	}
 	sink := &scriptSink{failAt: atoi(f[1])}
 	zw := lz4.NewWriter(sink)
 	cur := map[string]int{"bs": 4 << 20, "bc": 0, "cc": 1, "sz": 0, "lvl": 0, "conc": 1, "leg": 0}
@@ -376,6 +380,11 @@ func implW(f []string, o *oracleSink) string {
 	}
 	if shadowDepth > 0 {
 		lastShadowSink = sink.bytes()
+	} else if !hung {
+		if l := leakCheck(gBase); l != "" {
+			notes = append(notes, l)
+		}
+		traceRequests(o, true)
 	}
 	return fmt.Sprintf("%s ; %s ; %s", strings.Join(res, " "), strings.Join(sinks, " "), strings.Join(append(notes, "notes"), " "))
 }
@@ -385,6 +394,7 @@ var lastShadowSink []byte
 
 // implR: R <conc> <blob> <chunk> <failAt> <eofWithData> ops…   (+ `E:<blob>` expect exactly, `P:<blob>` expect strict prefix & error)
 func implR(f []string, o *oracleSink) string {
+	gBase := beginConc()
 	conc := atoi(f[1])
 	blobRef := f[2]
 	data := loadBlob(blobRef)
@@ -531,6 +541,19 @@ func implR(f []string, o *oracleSink) string {
 		}
 	}
 	cons := fmt.Sprint(src.pos)
+	abandoned := false
+	for _, op := range f[6:] {
+		if strings.HasPrefix(op, "R:") || strings.HasPrefix(op, "A:") {
+			abandoned = true // a stream may have been dropped half-way: outside the property
+		}
+	}
+	if !hung && !abandoned && (cleanEOF || sawErr) {
+		// the stream ended (io.EOF or an error was reported): no library goroutine may remain
+		if l := leakCheck(gBase); l != "" {
+			notes = append(notes, l)
+		}
+		traceRequests(o, true)
+	}
 	return fmt.Sprintf("%s ; consumed=%s ; %s", strings.Join(res, " "), cons, strings.Join(append(notes, "notes"), " "))
 }
 
